@@ -1,19 +1,37 @@
-import Lemmas.Ident.Mssql
+import Lemmas.Ident.Forced
 /-!
 # C14 — emitted DDL quotes every identifier and honours the schema
 -/
 namespace C14
 open Model.Ident Spec.Ident Lemmas.Ident
 
-/-- `Good k r c`: the construct has a visitor on dialect `k`, and the compiled text followed by the
-    command terminator tokenises (dialect lexer) into exactly the shape the request demands. -/
+/-- `Good k r c`: the construct has a visitor on dialect `k`, the compiled text followed by the
+    command terminator tokenises (dialect lexer) into exactly the shape the request demands, and every name
+    the request passed as `quoted_name(…, quote=True)` occurs as a delimited identifier (`forcedQuoted`).
+    This is `Spec.Ident.c14Ok` (the oracle evaluated on the implementation's text) on the model's text. -/
 def Good (k : Kind) (r : Str → Bool) (c : Construct) : Prop :=
-  ∃ s items, render k r c = some s ∧ shape k c = some items ∧ emittedOk k r items (s ++ terminator k) = true
+  ∃ s items, render k r c = some s ∧ shape k c = some items ∧ emittedOk k r items (s ++ terminator k) = true ∧
+    forcedQuoted k c (s ++ terminator k) = true
+
+/-- `Good` is exactly the oracle `c14Ok` applied to the model's statement -/
+theorem good_iff_c14Ok (k : Kind) (r : Str → Bool) (c : Construct) :
+    Good k r c ↔ ∃ s, render k r c = some s ∧ c14Ok k r c (s ++ terminator k) = true := by
+  unfold Good c14Ok
+  constructor
+  · rintro ⟨s, items, h1, h2, h3, h4⟩
+    exact ⟨s, h1, by simp [h2, h3, h4]⟩
+  · rintro ⟨s, h1, h⟩
+    cases h2 : shape k c with
+    | none => simp [h2] at h
+    | some items =>
+      simp only [h2, Bool.and_eq_true] at h
+      exact ⟨s, items, h1, rfl, h.1, h.2⟩
 
 theorem good_of_pieces (k : Kind) (r : Str → Bool) (c : Construct) (ps : List Piece)
     (hr : render k r c = some (renderPs k r ps)) (hs : shape k c = some (itemsPs ps))
-    (hwf : wf k ps = true) (hok : PiecesOK k ps) : Good k r c := by
-  refine ⟨_, _, hr, hs, ?_⟩
+    (hwf : wf k ps = true) (hok : PiecesOK k ps)
+    (hcov : ∀ n ∈ identNames c, n.qn = some (some true) → n.s = [] ∨ n ∈ chainNames ps) : Good k r c := by
+  refine ⟨_, _, hr, hs, ?_, forced_pieces k r c ps hwf hok hcov⟩
   have := pieces_ok k r ps (terminator k) hwf hok (sepHead_term k) (noDot_term k)
   simp only [emittedOk, lex, this, beq_self_eq_true]
 
@@ -89,7 +107,7 @@ example : lex .mssql (sqlLiteral "it's".toList) = [.str "it's".toList] := by dec
 syntax "c14_pieces" term "," term "," term : tactic
 macro_rules
   | `(tactic| c14_pieces $k , $r , $c) => `(tactic|
-      (refine good_of_pieces $k $r $c (pieces $k $c) ?_ ?_ ?_ ?_
+      (refine good_of_pieces $k $r $c (pieces $k $c) ?_ ?_ ?_ ?_ ?_
        · unfold render
          simp only [pieces, colspecP, optP, AT, alterTable_eq, alterColumn_oracle, alterColumn_sqlite, alterColumn_postgresql,
            alterColumn_mssql, mysqlColspec, formatColumnName, formatTableName_none, renderPs, render_tblP, render_tblColP,
@@ -98,7 +116,25 @@ macro_rules
          try simp
        · simp [shape, pieces, colspecP, optP, AT, itemsPs, itemsP, L, T, TX, tblP, nameP, tblColP, tableRef, nameRef, optText]
        · rfl
-       · simp [pieces, colspecP, optP, AT, piecesOK_cons, piecesOK_append, piecesOK_nil, pieceOK_L, pieceOK_opq, *]))
+       · simp [pieces, colspecP, optP, AT, piecesOK_cons, piecesOK_append, piecesOK_nil, pieceOK_L, pieceOK_opq, *]
+       · intro n hn hq
+         simp only [identNames, List.mem_append, List.mem_cons, List.not_mem_nil, or_false, Option.mem_toList,
+           Option.mem_def, beq_iff_eq, if_true, if_false, reduceCtorEq, or_assoc] at hn
+         simp only [pieces, colspecP, optP, AT, L, chainNames, tblP, tblColP, nameP, List.mem_append, List.mem_cons,
+           List.not_mem_nil, or_false, List.append_nil, List.nil_append, if_true, if_false, Bool.false_eq_true]
+         first
+         | (rcases hn with h | h | h | h <;>
+             first
+             | (subst h; simp [chainNames])
+             | (rcases schema_cov _ n h hq with e | e <;> simp [e, chainNames]))
+         | (rcases hn with h | h | h <;>
+             first
+             | (subst h; simp [chainNames])
+             | (rcases schema_cov _ n h hq with e | e <;> simp [e, chainNames]))
+         | (rcases hn with h | h <;>
+             first
+             | (subst h; simp [chainNames])
+             | (rcases schema_cov _ n h hq with e | e <;> simp [e, chainNames]))))
 
 /-- case split on the dialect; dialects excluded by a hypothesis `hk : k ∈ [...]` are closed by `simp at hk` -/
 syntax "c14_all" ident "," term "," term "," ident : tactic
@@ -325,21 +361,24 @@ theorem stmt_mysqlChange (k : Kind) (r : Str → Bool) (g : Tgt) (col new : Name
 
 def goodB (k : Kind) (r : Str → Bool) (c : Construct) : Bool :=
   match render k r c, shape k c with
-  | some s, some items => emittedOk k r items (s ++ terminator k)
+  | some s, some items => emittedOk k r items (s ++ terminator k) && forcedQuoted k c (s ++ terminator k)
   | _, _ => false
 
 theorem good_iff (k : Kind) (r : Str → Bool) (c : Construct) : Good k r c ↔ goodB k r c = true := by
   unfold Good goodB
   constructor
-  · rintro ⟨s, items, h1, h2, h3⟩
-    simp [h1, h2, h3]
+  · rintro ⟨s, items, h1, h2, h3, h4⟩
+    simp [h1, h2, h3, h4]
   · intro h
     cases h1 : render k r c with
     | none => simp [h1] at h
     | some s =>
       cases h2 : shape k c with
       | none => simp [h1, h2] at h
-      | some items => exact ⟨s, items, rfl, rfl, by simpa [h1, h2] using h⟩
+      | some items =>
+        have : emittedOk k r items (s ++ terminator k) = true ∧ forcedQuoted k c (s ++ terminator k) = true := by
+          simpa [h1, h2] using h
+        exact ⟨s, items, rfl, rfl, this.1, this.2⟩
 
 def plainName (s : String) : Name := { s := s.toList }
 
@@ -361,6 +400,7 @@ theorem stmt_mssql_columnName (r : Str → Bool) (g : Tgt) (col new : Name) (hg 
   have hps := pieces_ok_more .mssql r ps [T ",", .strIs "COLUMN".toList] ", 'COLUMN';".toList (by rfl)
     (by simp [ps, piecesOK_cons, piecesOK_nil, pieceOK_L, h2]) (by intro c hc; simp at hc; subst hc; decide)
     (by unfold noDot; decide)
+  have hpsok : PiecesOK .mssql ps := by simp [ps, piecesOK_cons, piecesOK_nil, pieceOK_L, h2]
   refine ⟨_, _, by unfold render; rfl, rfl, ?_⟩
   have e : "EXEC sp_rename '".toList ++ quoteInLiteral (formatTableName .mssql r g.t g.schema) ++ '.' ::
         quoteInLiteral (formatColumnName .mssql r col) ++
@@ -380,6 +420,18 @@ theorem stmt_mssql_columnName (r : Str → Bool) (g : Tgt) (col new : Name) (hg 
       Item.strIs "COLUMN".toList] : List Item) =
       T "EXEC sp_rename" :: Item.strSql [.ref (schemaParts g) [g.t.s, col.s]] :: (itemsPs ps ++ [T ",", .strIs "COLUMN".toList]) := by
     simp [ps, itemsPs, itemsP, L, T, nameP, nameRef]
+  refine ⟨?_, ?_⟩
+  rotate_left
+  · refine forced_literal_stmt r _ "EXEC sp_rename ".toList _ (schemaNames g ++ [g.t, col]) ps ", 'COLUMN';".toList
+      (by rw [e, hl1, hl2]; rfl) hne hnames (by rfl) hpsok (by intro c hc; simp at hc; subst hc; decide) ?_
+    intro n hn' hq
+    simp only [identNames, List.mem_append, List.mem_cons, List.not_mem_nil, or_false, Option.mem_toList,
+      or_assoc] at hn'
+    rcases hn' with h | h | h | h
+    · subst h; simp
+    · subst h; simp
+    · subst h; simp [ps, chainNames, L, nameP]
+    · rcases schema_cov _ n h hq with e' | e' <;> simp [e']
   unfold emittedOk
   rw [lex, e, hl1, hl2, hlex1, hitems]
   simp only [T, match_text]
@@ -400,6 +452,7 @@ theorem stmt_mssql_renameTable (r : Str → Bool) (g : Tgt) (new : Name) (hg : T
   let ps : List Piece := [L ", " ",", nameP new]
   have hps := pieces_ok_more .mssql r ps [] (terminator .mssql) (by rfl)
     (by simp [ps, piecesOK_cons, piecesOK_nil, pieceOK_L, h2]) (sepHead_term .mssql) (noDot_term .mssql)
+  have hpsok : PiecesOK .mssql ps := by simp [ps, piecesOK_cons, piecesOK_nil, pieceOK_L, h2]
   refine ⟨_, _, by unfold render; rfl, rfl, ?_⟩
   have e : "EXEC sp_rename '".toList ++ quoteInLiteral (formatTableName .mssql r g.t g.schema) ++
         "', ".toList ++ formatTableName .mssql r new none ++ terminator .mssql =
@@ -415,6 +468,17 @@ theorem stmt_mssql_renameTable (r : Str → Bool) (g : Tgt) (new : Name) (hg : T
   have hitems : ([T "EXEC sp_rename", Item.strSql [.ref (schemaParts g) [g.t.s]], T ",", nameRef new] : List Item) =
       T "EXEC sp_rename" :: Item.strSql [.ref (schemaParts g) [g.t.s]] :: (itemsPs ps ++ []) := by
     simp [ps, itemsPs, itemsP, L, T, nameP, nameRef]
+  refine ⟨?_, ?_⟩
+  rotate_left
+  · refine forced_literal_stmt r _ "EXEC sp_rename ".toList _ (schemaNames g ++ [g.t]) ps (terminator .mssql)
+      (by rw [e, hl1, hl2]; rfl) hne hnames (by rfl) hpsok (sepHead_term .mssql) ?_
+    intro n hn' hq
+    simp only [identNames, List.mem_append, List.mem_cons, List.not_mem_nil, or_false, Option.mem_toList,
+      or_assoc] at hn'
+    rcases hn' with h | h | h
+    · subst h; simp
+    · subst h; simp [ps, chainNames, L, nameP]
+    · rcases schema_cov _ n h hq with e' | e' <;> simp [e']
   unfold emittedOk
   rw [lex, e, hl1, hl2, hlex1, hitems]
   simp only [T, match_text]
@@ -441,6 +505,31 @@ example : goodB .mssql (fun _ => false) (.columnName { t := plainName "My T", sc
     (plainName "c") (plainName "D")) = true := by decide
 example : goodB .mssql (fun _ => false) (.mssqlDropFK { t := plainName "My T", schema := some (plainName "dbo") } "c".toList) = true := by
   decide +kernel
+
+/-- SQLite `ALTER TABLE <schema>.<table> RENAME COLUMN <a> TO <b>` (seed C14-m dropped the schema here): the target is
+    schema.table, both quoted when needed (dotted plain schema multi-part, quoted_name one identifier), for all names -/
+theorem stmt_sqlite_renameColumn (r : Str → Bool) (g : Tgt) (col new : Name) (hg : TgtOK .sqlite g)
+    (hc : NameOK .sqlite col) (hn : NameOK .sqlite new) : Good .sqlite r (.columnName g col new) :=
+  stmt_columnName .sqlite r g col new (by decide) hg hc hn
+
+/-- SQLite `ALTER TABLE <schema>.<table> RENAME TO <new>`: the target is schema-qualified, the new name is not -/
+theorem stmt_sqlite_renameTable (r : Str → Bool) (g : Tgt) (new : Name) (hg : TgtOK .sqlite g)
+    (hn : NameOK .sqlite new) : Good .sqlite r (.renameTable g new) :=
+  stmt_renameTable .sqlite r g new (by decide) hg hn
+
+-- non-vacuity: with a schema the statement is accepted, the schema-less text of seed C14-m is rejected
+example : goodB .sqlite (fun _ => false) (.columnName { t := plainName "My T", schema := some (plainName "aux") }
+    (plainName "a") (plainName "b")) = true := by decide +kernel
+example : c14Ok .sqlite (fun _ => false) (.columnName { t := plainName "My T", schema := some (plainName "aux") }
+    (plainName "a") (plainName "b")) "ALTER TABLE \"My T\" RENAME COLUMN a TO b;".toList = false := by decide +kernel
+
+-- non-vacuity of the forced-quote clause: quoted_name("users", quote=True) must be delimited
+example : goodB .oracle (fun _ => false) (.dropColumn { t := { s := "users".toList, qn := some (some true) } } (plainName "c")) = true := by
+  decide +kernel
+example : c14Ok .oracle (fun _ => false) (.dropColumn { t := { s := "users".toList, qn := some (some true) } } (plainName "c"))
+    "ALTER TABLE users DROP COLUMN c".toList = false := by decide +kernel
+example : c14Ok .oracle (fun _ => false) (.dropColumn { t := plainName "users" } (plainName "c"))
+    "ALTER TABLE users DROP COLUMN c".toList = true := by decide +kernel
 
 /-- `%` in a quoted name on PostgreSQL/MySQL (finding C14-PERCENT): excluded by `NameOK.pct` -/
 theorem percent_counterexample :
